@@ -28,7 +28,8 @@ Definition gap_trace : list event :=
     ev 1 true false false 1001 (bs "GET / HTTP/1.1" ++ crlf);
     ev 1 true false false 1026 (bs "Accept: b" ++ crlfcrlf) ].
 
-(* the first segment is retransmitted before the head completes *)
+(* FORMER witness of the dup class (repaired by fix C09-dup): the first segment is retransmitted,
+   byte for byte, before the head completes *)
 Definition dup_trace : list event :=
   [ ev 1 true true false 1000 [];
     ev 1 false true false 5000 [];
@@ -36,11 +37,30 @@ Definition dup_trace : list event :=
     ev 1 true false false 1001 (bs "GET / HTTP/1.1" ++ crlf ++ bs "Host: a" ++ crlf);
     ev 1 true false false 1026 crlf ].
 
-(* the client half-closes with its request (FIN on the data segment): the response is never reported *)
+(* FORMER witness of the fin class (repaired by fix C09-fin): the client half-closes with its request
+   (FIN on the data segment that completes it); the response used to be lost, now it is reported *)
 Definition fin_trace : list event :=
   [ ev 1 true true false 1000 [];
     ev 1 false true false 5000 [];
     ev 1 true false true 1001 (bs "GET / HTTP/1.0" ++ crlfcrlf);
+    ev 1 false false false 5001 resp_head ].
+
+(* what is left of the dup class: the retransmission is re-segmented ("Host: a CRLF" comes again together
+   with the final CRLF), it overlaps stored bytes without being a stored segment and is stored whole *)
+Definition overlap_trace : list event :=
+  [ ev 1 true true false 1000 [];
+    ev 1 false true false 5000 [];
+    ev 1 true false false 1001 (bs "GET / HTTP/1.1" ++ crlf);
+    ev 1 true false false 1017 (bs "Host: a" ++ crlf);
+    ev 1 true false false 1017 (bs "Host: a" ++ crlfcrlf) ].
+
+(* what is left of the fin class: the segment that carries the FIN overtakes the first request
+   segment, the flow is dropped with the request still unreported, and the rest is ignored *)
+Definition fin_early_trace : list event :=
+  [ ev 1 true true false 1000 [];
+    ev 1 false true false 5000 [];
+    ev 1 true false true 1009 (bs "TP/1.0" ++ crlfcrlf);
+    ev 1 true false false 1001 (bs "GET / HT");
     ev 1 false false false 5001 resp_head ].
 
 Definition model_outs (tr : list event) := outs recog_req recog_resp 10 (map wire tr).
@@ -79,14 +99,24 @@ Lemma gap_refuted :
 Proof. split; [vm_compute; reflexivity|]. split; [vm_compute; reflexivity|]. apply outs_neq. vm_compute. reflexivity. Qed.
 
 Lemma dup_refuted :
-  spec_wf recog_req recog_resp dup_trace = true /\ classes dup_trace = (false, false, true, false)
-  /\ model_outs dup_trace <> spec_outs' dup_trace.
+  spec_wf recog_req recog_resp overlap_trace = true /\ classes overlap_trace = (false, false, true, false)
+  /\ model_outs overlap_trace <> spec_outs' overlap_trace.
 Proof. split; [vm_compute; reflexivity|]. split; [vm_compute; reflexivity|]. apply outs_neq. vm_compute. reflexivity. Qed.
 
+Lemma dup_former_witness_agrees :
+  spec_wf recog_req recog_resp dup_trace = true /\ classes dup_trace = (false, false, false, false)
+  /\ model_outs dup_trace = spec_outs' dup_trace.
+Proof. split; [vm_compute; reflexivity|]. split; vm_compute; reflexivity. Qed.
+
 Lemma fin_refuted :
-  spec_wf recog_req recog_resp fin_trace = true /\ classes fin_trace = (false, false, false, true)
-  /\ model_outs fin_trace <> spec_outs' fin_trace.
+  spec_wf recog_req recog_resp fin_early_trace = true /\ classes fin_early_trace = (false, false, false, true)
+  /\ model_outs fin_early_trace <> spec_outs' fin_early_trace.
 Proof. split; [vm_compute; reflexivity|]. split; [vm_compute; reflexivity|]. apply outs_neq. vm_compute. reflexivity. Qed.
+
+Lemma fin_former_witness_agrees :
+  spec_wf recog_req recog_resp fin_trace = true /\ classes fin_trace = (false, false, false, false)
+  /\ model_outs fin_trace = spec_outs' fin_trace.
+Proof. split; [vm_compute; reflexivity|]. split; vm_compute; reflexivity. Qed.
 
 (* what exactly goes wrong (for the report) *)
 Example wrap_shows : map (fun o => match o with OReq _ => 1 | OResp _ => 2 | ONone => 0 end) (model_outs wrap_trace) = [0;0;0;0;2]
